@@ -621,6 +621,161 @@ extern "C"
 }
 
 // ------------------------------------------------------------------------------------------------ heap: forget released ranges
+// ------------------------------------------------------------------------------------------------ std::atomic
+// The library objects of this variant are additionally compiled with TSan's ATOMICS-ONLY instrumentation
+// (-fsanitize=thread -mllvm -tsan-instrument-memory-accesses=0 ...; no TSan runtime is linked): every std::atomic
+// operation arrives here WITH its memory order. The operation itself is carried out (the baton makes it atomic), it is a
+// yield point, and it is a happens-before edge exactly as far as its memory order says: an acquire (consume, acq_rel,
+// seq_cst) load / RMW joins the clock released into the variable, a release (acq_rel, seq_cst) store / RMW releases the
+// thread's clock into it, a relaxed RMW continues the release sequence, a relaxed store ends it. So a spin lock built from
+// acquire / release atomics orders what it protects - and one built from relaxed atomics does not, although it excludes.
+// A thread that keeps operating on one atomic without any other progress (spinning) hands the baton on.
+namespace
+{
+enum
+{
+    MO_RELAXED = 0,
+    MO_CONSUME = 1,
+    MO_ACQUIRE = 2,
+    MO_RELEASE = 3,
+    MO_ACQ_REL = 4,
+    MO_SEQ_CST = 5
+};
+thread_local const volatile void* t_spinAddr = nullptr;
+thread_local unsigned t_spinCount = 0;
+
+inline bool acquires(int mo)
+{
+    return mo == MO_CONSUME || mo == MO_ACQUIRE || mo == MO_ACQ_REL || mo == MO_SEQ_CST;
+}
+inline bool releases(int mo)
+{
+    return mo == MO_RELEASE || mo == MO_ACQ_REL || mo == MO_SEQ_CST;
+}
+// kind: 0 load, 1 store, 2 read-modify-write
+void atomicOp(const volatile void* addr, int kind, int mo, bool noProgress = false)
+{
+    if (t_tid < 0 || t_inRt)
+        return;
+    yieldPoint();
+    ++t_inRt;
+    void* key = const_cast<void*>(addr);
+    if (kind != 1 && acquires(mo))
+        acquireFrom(key);
+    if (kind != 0)
+    {
+        if (releases(mo))
+            releaseTo(key);
+        else if (kind == 1)
+            g->syncVc.erase(key);  // a relaxed store ends the release sequence
+    }
+    // spinning: the same atomic again and again without changing it (a failing test_and_set / compare_exchange, a polling load)
+    if (!noProgress)
+    {
+        t_spinAddr = nullptr;
+        t_spinCount = 0;
+    }
+    else if (addr == t_spinAddr)
+    {
+        if (++t_spinCount >= 48)
+        {
+            t_spinCount = 0;
+            const int target = pickOther(t_tid);
+            if (target >= 0 && target != t_tid && !g->finished[target])
+                switchTo(target);
+        }
+    }
+    else
+    {
+        t_spinAddr = addr;
+        t_spinCount = 0;
+    }
+    --t_inRt;
+}
+}  // namespace
+
+extern "C"
+{
+    void __tsan_init()
+    {
+    }
+    void __tsan_atomic_thread_fence(int mo)
+    {
+        // a fence is modelled as an operation on one global location (coarser than the standard: more edges, never fewer)
+        static char fenceObj;
+        atomicOp(&fenceObj, 2, mo);
+    }
+    void __tsan_atomic_signal_fence(int)
+    {
+    }
+#define SIM_TSAN_ATOMICS(N, T)                                                                                                          \
+    T __tsan_atomic##N##_load(const volatile T* a, int mo)                                                                              \
+    {                                                                                                                                   \
+        atomicOp(a, 0, mo, true);                                                                                                       \
+        return __atomic_load_n(a, __ATOMIC_SEQ_CST);                                                                                    \
+    }                                                                                                                                   \
+    void __tsan_atomic##N##_store(volatile T* a, T v, int mo)                                                                           \
+    {                                                                                                                                   \
+        atomicOp(a, 1, mo);                                                                                                             \
+        __atomic_store_n(a, v, __ATOMIC_SEQ_CST);                                                                                       \
+    }                                                                                                                                   \
+    T __tsan_atomic##N##_exchange(volatile T* a, T v, int mo)                                                                           \
+    {                                                                                                                                   \
+        atomicOp(a, 2, mo, __atomic_load_n(a, __ATOMIC_SEQ_CST) == v);                                                                  \
+        return __atomic_exchange_n(a, v, __ATOMIC_SEQ_CST);                                                                             \
+    }                                                                                                                                   \
+    T __tsan_atomic##N##_fetch_add(volatile T* a, T v, int mo)                                                                          \
+    {                                                                                                                                   \
+        atomicOp(a, 2, mo);                                                                                                             \
+        return __atomic_fetch_add(a, v, __ATOMIC_SEQ_CST);                                                                              \
+    }                                                                                                                                   \
+    T __tsan_atomic##N##_fetch_sub(volatile T* a, T v, int mo)                                                                          \
+    {                                                                                                                                   \
+        atomicOp(a, 2, mo);                                                                                                             \
+        return __atomic_fetch_sub(a, v, __ATOMIC_SEQ_CST);                                                                              \
+    }                                                                                                                                   \
+    T __tsan_atomic##N##_fetch_and(volatile T* a, T v, int mo)                                                                          \
+    {                                                                                                                                   \
+        atomicOp(a, 2, mo);                                                                                                             \
+        return __atomic_fetch_and(a, v, __ATOMIC_SEQ_CST);                                                                              \
+    }                                                                                                                                   \
+    T __tsan_atomic##N##_fetch_or(volatile T* a, T v, int mo)                                                                           \
+    {                                                                                                                                   \
+        atomicOp(a, 2, mo);                                                                                                             \
+        return __atomic_fetch_or(a, v, __ATOMIC_SEQ_CST);                                                                               \
+    }                                                                                                                                   \
+    T __tsan_atomic##N##_fetch_xor(volatile T* a, T v, int mo)                                                                          \
+    {                                                                                                                                   \
+        atomicOp(a, 2, mo);                                                                                                             \
+        return __atomic_fetch_xor(a, v, __ATOMIC_SEQ_CST);                                                                              \
+    }                                                                                                                                   \
+    T __tsan_atomic##N##_fetch_nand(volatile T* a, T v, int mo)                                                                         \
+    {                                                                                                                                   \
+        atomicOp(a, 2, mo);                                                                                                             \
+        return __atomic_fetch_nand(a, v, __ATOMIC_SEQ_CST);                                                                             \
+    }                                                                                                                                   \
+    int __tsan_atomic##N##_compare_exchange_strong(volatile T* a, T* c, T v, int mo, int fmo)                                           \
+    {                                                                                                                                   \
+        const bool will = __atomic_load_n(a, __ATOMIC_SEQ_CST) == *c;                                                                   \
+        atomicOp(a, will ? 2 : 0, will ? mo : fmo, !will);                                                                                     \
+        return __atomic_compare_exchange_n(a, c, v, false, __ATOMIC_SEQ_CST, __ATOMIC_SEQ_CST);                                         \
+    }                                                                                                                                   \
+    int __tsan_atomic##N##_compare_exchange_weak(volatile T* a, T* c, T v, int mo, int fmo)                                             \
+    {                                                                                                                                   \
+        return __tsan_atomic##N##_compare_exchange_strong(a, c, v, mo, fmo);                                                            \
+    }                                                                                                                                   \
+    T __tsan_atomic##N##_compare_exchange_val(volatile T* a, T c, T v, int mo, int fmo)                                                 \
+    {                                                                                                                                   \
+        __tsan_atomic##N##_compare_exchange_strong(a, &c, v, mo, fmo);                                                                  \
+        return c;                                                                                                                       \
+    }
+    SIM_TSAN_ATOMICS(8, char)
+    SIM_TSAN_ATOMICS(16, short)
+    SIM_TSAN_ATOMICS(32, int)
+    SIM_TSAN_ATOMICS(64, long)
+#undef SIM_TSAN_ATOMICS
+}
+
 namespace
 {
 constexpr size_t HDR = 16;
